@@ -513,7 +513,7 @@ fn part_misc(shard: &Shard, journal: &Journal, rep: &mut Report) {
 				nnames: 2,
 				dup_last: 0,
 				mask_after: None,
-				layers: (0..3).map(|li| LayerD { kinds: vec![KINDS_ALL[c[li]], 0], assert_kind: 0, ext: li > 0 && c[3] == 1, mask_before: None }).collect(),
+				layers: (0..3).map(|li| LayerD { kinds: vec![KINDS_ALL[c[li]], 0], assert_kind: 0, ext: li > 0 && c[3] == 1, mask_before: None, mask_self: None }).collect(),
 			});
 		});
 		crate::enumr::for_each_product(&[k, k, k, k], |_, c| {
@@ -521,7 +521,7 @@ fn part_misc(shard: &Shard, journal: &Journal, rep: &mut Report) {
 				nnames: 2,
 				dup_last: 0,
 				mask_after: None,
-				layers: (0..2).map(|li| LayerD { kinds: vec![KINDS_ALL[c[li * 2]], KINDS_ALL[c[li * 2 + 1]]], assert_kind: 0, ext: false, mask_before: None }).collect(),
+				layers: (0..2).map(|li| LayerD { kinds: vec![KINDS_ALL[c[li * 2]], KINDS_ALL[c[li * 2 + 1]]], assert_kind: 0, ext: false, mask_before: None, mask_self: None }).collect(),
 			});
 		});
 		for ch in chains {
